@@ -17,10 +17,11 @@ EXTENDS Exact, FiniteSets, TLC, Json
 CONSTANTS EMIT,     \* TRUE: print one EMIT record per completed vector
           FAMS,     \* families explored: subset of {"twohot","ce","huber","mse","avgl1","sched"}
           DEV,      \* "none", or the name of a deviation (canary) that TLC must refute
-          WIDE,     \* TRUE: also bins whose range exceeds the 1e8 sentinel of two_hot_encoding
+          WIDE,     \* TRUE: also bins whose range exceeds 1e8 (regression: former finite sentinel)
           IOTA,     \* set of n: also the order-isomorphic bins <<0,1,..,n-1>> (bound to make_two_hot_bins)
           MaxT,     \* linear_schedule: total_timesteps in 1..MaxT
           MaxCE,    \* cross-entropy on bins with at most MaxCE edges
+          MaxSat,   \* saturated cross-entropy on bins with at most MaxSat edges
           MaxMSE,   \* masked_mse_loss: shapes (n,m) with n*m <= MaxMSE
           NPairs    \* masked_mse_loss: number of (prediction,target) pairs per entry
 
@@ -47,7 +48,7 @@ Init == fam = "none" /\ stage = 0 /\ p = <<>>
 ----------------------------------------------------------------------------
 (* two_hot_encoding / two_hot_decoding (preprocessing.py:41-96)               *)
 
-BIG == 100000000   \* the literal 1e8 of preprocessing.py:61
+BIG == 100000000   \* 1e8: the finite sentinel of the former two_hot_encoding; also the scale of the default eps
 
 (* the definition: lower edge = largest bin strictly below x, or the first bin *)
 StrictlyBelow(b, x) == IF DEV = "twohot_at_or_below" THEN QLe(b, x) ELSE QLt(b, x)
@@ -71,11 +72,17 @@ TwoHot(bins, x) ==
   IN <<>> \o TwoHotAt(bins, x, lo, up, Weight(bins, x, lo, up))   \* (\o: evaluate once, as a tuple)
 Decode(bins, row) == BSum([k \in 1..Len(bins) |-> QMul(row[k], bins[k])])
 
-(* the mechanism of the code: diff = x - bins; diff - 1e8 * (sign(diff) - 1);  *)
-(* argmin (first minimiser).  A penalised difference is kept as               *)
-(* <<integer part, fractional part>> so that TLC's 32-bit integers suffice.   *)
-Penalised(d) == LET fl == d[1] \div d[2]
-                IN <<fl - BIG * (QSign(d) - 1), <<d[1] - fl * d[2], d[2]>>>>
+(* the mechanism of the code: diff = x - bins; where(diff > 0, diff, inf);      *)
+(* argmin (first minimiser).  A masked difference is <<1, 0>> (infinite) or   *)
+(* <<0, diff>>.                                                               *)
+(* Deviation "twohot_sentinel_1e8" (the former code, known finding            *)
+(* two_hot_encoding:bin_range_exceeds_1e8_sentinel): diff - 1e8*(sign(diff)-1) *)
+(* with the finite sentinel BIG, kept as <<integer part, fractional part>> so *)
+(* that TLC's 32-bit integers suffice; TLC refutes it on the wide bins.       *)
+Penalised(d) == IF DEV = "twohot_sentinel_1e8"
+                THEN LET fl == d[1] \div d[2]
+                     IN <<fl - BIG * (QSign(d) - 1), <<d[1] - fl * d[2], d[2]>>>>
+                ELSE IF QSign(d) > 0 THEN <<0, d>> ELSE <<1, Zero>>
 PenLt(a, b) == a[1] < b[1] \/ (a[1] = b[1] /\ QLt(a[2], b[2]))
 RECURSIVE ArgminFirst(_, _, _)
 ArgminFirst(pen, a, b) ==
@@ -87,7 +94,7 @@ ArgminFirst(pen, a, b) ==
 MaskedArgmin(bins, x) ==
   ArgminFirst(<<>> \o [k \in 1..Len(bins) |-> Penalised(QSub(x, bins[k]))], 1, Len(bins))
 Range(bins) == QSub(bins[Len(bins)], bins[1])
-SentinelAdequate(bins) == QLe(Range(bins), I(BIG))   \* the whole bin range fits under the sentinel
+SentinelAdequate(bins) == QLe(Range(bins), I(BIG))   \* the bin range would fit under the former 1e8 sentinel
 
 P26 == 67108864
 P27 == 134217728
@@ -141,11 +148,9 @@ TwoHotEdgeIsOneHot == TH => \E row \in {TwoHot(p.bins, p.x)} :
 TwoHotBetweenIsTwoHot == TH => \E sup \in {SupportOf(TwoHot(p.bins, p.x))} :
                                 \A k \in 1..(Len(p.bins) - 1) :
                                   (QLt(p.bins[k], p.x) /\ QLt(p.x, p.bins[k + 1])) => sup = {k, k + 1}
-(* the masked-argmin search of the code finds the lower edge of the definition *)
-(* whenever the bin range fits under the sentinel ...                          *)
-TwoHotMechanismSound == (TH /\ SentinelAdequate(p.bins)) => MaskedArgmin(p.bins, p.x) = LowerIdx(p.bins, p.x)
-(* ... and only then (TLC refutes this one on the wide bins: guard canary)     *)
-TwoHotMechanismUnguarded == TH => MaskedArgmin(p.bins, p.x) = LowerIdx(p.bins, p.x)
+(* the masked-argmin search of the code finds the lower edge of the definition, *)
+(* for every bin range (the wide bins included)                                *)
+TwoHotMechanismSound == TH => MaskedArgmin(p.bins, p.x) = LowerIdx(p.bins, p.x)
 
 ----------------------------------------------------------------------------
 (* two_hot_cross_entropy_loss (preprocessing.py:99-129), device D3:           *)
@@ -177,6 +182,54 @@ CEUniformIsLnN == (CEV /\ \A k \in 1..Len(p.lv) : p.lv[k] = 0) => CEForm = << <<
 (* in general: exactly one LN(S), and between zero and one LN2 subtracted *)
 CECoefficients == CEV => /\ CEForm[1][2] = One
                          /\ QLe(I(-1), CEForm[2][2]) /\ QLe(CEForm[2][2], Zero)
+
+(* Saturated logits (D3): z_i = c - g_i with integer gaps g_i in {0, G1, G2},  *)
+(* G in {16, 40, 100}, at least one g_i = 0; H = number of bins with g_i = 0.  *)
+(*   logsumexp(z) = c + LN(H) + log(1 + sum_{g_i > 0} e^-g_i / H)               *)
+(*   log_softmax_i = - g_i - LN(H) - (the same last term)                      *)
+(* The last term lies in [0, sum_{g_i>0} EXP(-g_i) / H] (<= 9e-7, far below one  *)
+(* float32 ulp of G); it is emitted as `slack` and allowed in the comparison.  *)
+(*   CE = sum_i t_i g_i + (sum_i t_i) * LN(H)  (+ slack)                        *)
+(* i.e. a rational plus one LN: a target on the low-probability bins costs the *)
+(* full gap, however large - log-probabilities are not floored.               *)
+GapSets == {<<16, 40>>, <<40, 100>>, <<100, 16>>}
+SatOffsets == {Zero, I(3)}
+SatLevels(n) == IF n <= 3 THEN {0, 1, 2} ELSE {0, 1}
+LOGEPSCAP == 19      \* deviation "ce_log_eps": log(softmax + 1e-8) >= ln(1e-8) = -18.42 > -19
+NominalGap(gp, gs, k) == IF gp[k] = 0 THEN 0 ELSE gs[gp[k]]
+EffectiveGap(gp, gs, k) == IF DEV = "ce_log_eps" /\ NominalGap(gp, gs, k) > LOGEPSCAP THEN LOGEPSCAP
+                           ELSE NominalGap(gp, gs, k)
+HighBins(gp) == {k \in 1..Len(gp) : gp[k] = 0}
+SatCrossEntropy(bins, gp, gs, x) ==
+  LET t == TwoHot(bins, x)
+  IN [const |-> BSum([k \in 1..Len(bins) |-> QMul(t[k], I(EffectiveGap(gp, gs, k)))]),
+      ln |-> <<Cardinality(HighBins(gp)), BSum(t)>>,
+      slack |-> [high |-> Cardinality(HighBins(gp)),
+                 low |-> <<<<gs[1], Cardinality({k \in 1..Len(gp) : gp[k] = 1})>>,
+                           <<gs[2], Cardinality({k \in 1..Len(gp) : gp[k] = 2})>>>>]]
+
+ChooseGaps(gp, gs, c) ==
+  /\ fam = "twohot" /\ stage = 2 /\ "ce" \in FAMS
+  /\ Len(p.bins) <= MaxSat /\ SentinelAdequate(p.bins)
+  /\ fam' = fam /\ stage' = 4 /\ p' = [bins |-> p.bins, x |-> p.x, gp |-> gp, gs |-> gs, c |-> c]
+  /\ Emit("CrossEntropySat",
+          [bins |-> p.bins, x |-> p.x, gaps |-> [k \in 1..Len(gp) |-> NominalGap(gp, gs, k)], c |-> c],
+          SatCrossEntropy(p.bins, gp, gs, p.x))
+
+SATV == fam = "twohot" /\ stage = 4
+SatSupport == SupportOf(TwoHot(p.bins, p.x))
+SatConst == SatCrossEntropy(p.bins, p.gp, p.gs, p.x).const
+(* target on the high-probability bins: CE = LN(#high) *)
+CESatOnHighIsLnH == (SATV /\ SatSupport \subseteq HighBins(p.gp)) =>
+                      SatConst = Zero
+(* target entirely on bins of one gap g: CE = g + LN(#high), whatever g *)
+CESatPaysFullGap == SATV => \A k \in SatSupport :
+                      (\A j \in SatSupport : NominalGap(p.gp, p.gs, j) = NominalGap(p.gp, p.gs, k))
+                      => SatConst = I(NominalGap(p.gp, p.gs, k))
+(* in general: between the smallest and the largest gap under the target, one LN(#high) *)
+CESatBetweenGaps == SATV => /\ \E k \in SatSupport : QLe(I(NominalGap(p.gp, p.gs, k)), SatConst)
+                            /\ \E k \in SatSupport : QLe(SatConst, I(NominalGap(p.gp, p.gs, k)))
+                            /\ SatCrossEntropy(p.bins, p.gp, p.gs, p.x).ln[2] = One
 
 ----------------------------------------------------------------------------
 (* huber_loss(abs_errors, delta) (losses.py:482-488)                           *)
@@ -355,6 +408,8 @@ XIntervals  == IF fam = "twohot" /\ stage = 1 THEN 1..(Len(p.bins) - 1) ELSE {}
 XWeights    == IF fam = "twohot" /\ stage = 1 THEN WeightsFor(p.bins) ELSE {}
 LogitLevels == IF fam = "twohot" /\ stage = 2 /\ "ce" \in FAMS /\ Len(p.bins) <= MaxCE
                THEN [1..Len(p.bins) -> {0, 1}] ELSE {}
+GapPatterns == IF fam = "twohot" /\ stage = 2 /\ "ce" \in FAMS /\ Len(p.bins) <= MaxSat
+               THEN {gp \in [1..Len(p.bins) -> SatLevels(Len(p.bins))] : \E k \in 1..Len(p.bins) : gp[k] = 0} ELSE {}
 Masks       == IF fam = "mse" /\ stage = 1 THEN [1..p.n -> {0, 1}] ELSE {}
 PairRows    == IF fam = "mse" /\ stage = 2 THEN [1..p.m -> Pairs] ELSE {}
 
@@ -362,6 +417,7 @@ Next ==
   \/ \E b \in TwoHotBins : ChooseBins(b)
   \/ \E k \in XIntervals, w \in XWeights : ChooseX(k, w)
   \/ \E lv \in LogitLevels, c \in Offsets : ChooseLogits(lv, c)
+  \/ \E gp \in GapPatterns, gs \in GapSets, c \in SatOffsets : ChooseGaps(gp, gs, c)
   \/ \E d \in Deltas : ChooseDelta(d)
   \/ \E e \in Errs : ChooseError(e)
   \/ \E s \in Shapes : ChooseShape(s[1], s[2])
